@@ -103,7 +103,7 @@ inductive Pc where
   | uClosePkg (pending : Option Meta) (r : Res)
   | iVerify
   | iRename (tmp : PkgDir)
-  | iAddOpen | iAddLock | iAddCreate | iAddCreateLock
+  | iAddOpen | iAddTouch | iAddLock | iAddCreate | iAddCreateLock
   | iAddClose (pending : Option (List (Bid × Nat))) (total : Nat) (failed : Bool)
   | gOpen | gLock
   | gScanOpen (rmeta : List (Bid × Nat)) (todo : List (Bid × Nat)) (cands : List Cand) (total : Nat)
@@ -385,8 +385,13 @@ def stepPc (H : Nat → Nat) (cfg : Cfg) (prog : Prog) (exO shO : Bool) (g : Sto
     match g.repo with
     | .absent =>
       -- fix 3: create an empty file with a plain open and retry the locked update
-      if cfg.emptyOk then ({ g with repo := .torn }, .iAddOpen) else (g, .iAddCreate)
+      if cfg.emptyOk then (g, .iAddTouch) else (g, .iAddCreate)
     | _ => (g, .iAddLock)
+  | .iAddTouch =>
+    -- `open(fn, "a").close()`, outside the lock: creates an empty file, NEVER changes an existing one
+    match g.repo with
+    | .absent => ({ g with repo := .torn }, .iAddOpen)
+    | _ => (g, .iAddOpen)
   | .iAddLock =>
     if exO || shO then (g, .iAddLock)
     else
